@@ -74,6 +74,7 @@ NAMESPACES = ["public", "c15b"]
 SLOT_KIND = ["http", "http", "grpc", "grpc", "mixed"]
 HTTP_TIMEOUT = 8
 SYNC_WINDOW = 1.2          # seconds: 500 ms batch tick + transport, generous
+PROMPT_S = 5            # seconds: ten 500 ms sync ticks; bound for a plain operation in a stable, fault-free cluster
 HANDOVER = 3.0             # seconds after a node is back in the member list: first snapshot pull (1 s) + slack
 
 # ------------------------------------------------------------------------------------------------ rust DefaultHasher (SipHash-1-3)
@@ -1309,6 +1310,10 @@ def run_cluster(args):
                     others = [n for n in ctx.nodes if n.alive() and n.id != victim.id]
                     http_op(ctx, "takeover", rnd, k, rnd.choice(others), op="http_register")
                 time.sleep(SYNC_WINDOW + 0.6)
+                # their clients are alive: one heartbeat each before the owner dies (as every HTTP client sends every few seconds)
+                for k in sorted(ctx.reserved):
+                    http_op(ctx, "takeover", rnd, k, rnd.choice([n for n in ctx.nodes if n.alive() and n.id != victim.id]), op="http_beat")
+                time.sleep(0.3)
             ctx.pre_kill_obs = {n.id: observe_node(ctx, n) for n in ctx.nodes}
             res["evaluations"] += 1
             ctx.up[victim.id] = False
@@ -1338,14 +1343,23 @@ def run_cluster(args):
             # alive the beat is refused (the forward fails); the first accepted beat means the take-over has just happened
             # (15 s liveness rule + 3 s status tick) - the client then goes away in an orderly manner AT ONCE, i.e. before the new
             # owner has had any occasion to push something about the instance. Whatever is left at t_kill + 19.5 s goes then.
-            ctx.nemesis_on = True
+            ctx.nemesis_on = time.time() < t_k + 9          # the nemesis rests while the take-over is awaited and judged
             ctx.run_flag.set()
             done = 0
             refused, gone = set(), set()
             surv = [n for n in ctx.nodes if n.alive()]
-            via = {k: surv[i % len(surv)] for i, k in enumerate(sorted(ctx.reserved))}
+            # every other set-aside client talks to the node that will own its service (the survivors' view: the victim's id gone
+            # from the live list), the others to a node that will forward to it; each leaves through the node it talks to - that
+            # node has just shown that it knows about the take-over
+            ids = sorted(n.id for n in surv)
+            via = {}
+            for i, k in enumerate(sorted(ctx.reserved)):
+                new_owner = ids[ctx.svc_hash[k[:3]] % len(ids)]
+                via[k] = ([n for n in surv if (n.id == new_owner) == (i % 2 == 0)] or surv)[0]
             while len(gone) < len(ctx.reserved):
                 late = time.time() >= t_k + 19.5
+                if time.time() >= t_k + 9:
+                    ctx.nemesis_on = False
                 for k in sorted(ctx.reserved):
                     if k in gone:
                         continue
@@ -1358,19 +1372,55 @@ def run_cluster(args):
                             go = True
                             ctx.count("deregistrations_at_first_accepted_beat_after_takeover")
                     if go:
-                        # every other set-aside client leaves through the node that owns its service now, the others through the
-                        # node that forwards to it (the survivors' view: the victim's ids are gone from the live list)
-                        ids = sorted(n.id for n in surv)
-                        new_owner = ids[ctx.svc_hash[k[:3]] % len(ids)]
-                        idx = sorted(ctx.reserved).index(k)
-                        target = [n for n in surv if (n.id == new_owner) == (idx % 2 == 0)] or surv
-                        rec = http_op(ctx, "takeover", rnd, k, target[0], op="http_deregister")
+                        rec = http_op(ctx, "takeover", rnd, k, via[k], op="http_deregister")
                         if rec.get("result") == "ok" or late:
                             gone.add(k)
                         done += 1 if rec.get("result") == "ok" else 0
                 if len(gone) < len(ctx.reserved):
                     time.sleep(0.3)
+            # ---- prompt propagation: the membership is stable again (the survivors have taken over), the deregistration of a
+            # set-aside instance is a plain acknowledged operation on a key nobody else touches: PROMPT_S after its acknowledgement -
+            # ten sync ticks - every survivor must have dropped the instance, whatever repairs a periodic exchange might do later.
+            # Keys whose window overlaps a fault of the nemesis (stopped survivor, held link) are not judged here.
+            with ctx.lock:
+                dereg = {r["key"]: r for r in ctx.history if r.get("client") == "takeover" and r["op"] == "http_deregister" and r["result"] == "ok"}
+            judged = []
+            for k, r in sorted(dereg.items()):
+                hit = [f for f in ctx.faults if f["kind"] != "kill" and f["t0"] <= r["t_ret"] + PROMPT_S and f.get("t1", 1e18) >= r["t_call"] - 1.0]
+                if hit:
+                    ctx.count("takeover_deregistrations_not_judged_for_promptness(fault-in-window)")
+                    continue
+                judged.append((k, r))
+            if judged:
+                time.sleep(max(0.0, max(r["t_ret"] for _, r in judged) + PROMPT_S - time.time()))
+                looks = []
+                for _i in range(2):
+                    looks.append({n.id: observe_node(ctx, n) for n in surv})
+                    time.sleep(1.0)
+                late_faults = [f for f in ctx.faults if f["kind"] != "kill" and f.get("t1", 1e18) >= min(r["t_call"] for _, r in judged) - 1.0]
+                for k, r in judged:
+                    if late_faults or any(v is None for lk in looks for v in lk.values()):
+                        ctx.count("takeover_deregistrations_not_judged_for_promptness(fault-in-window)")
+                        continue
+                    ctx.count("takeover_deregistrations_judged_for_promptness")
+                    res["evaluations"] += 1
+                    still = [sorted(nid for nid, o in lk.items() if o.get(k) is not None) for lk in looks]
+                    if still[0] and still[1]:
+                        sig = "deregistration-not-propagated-within-%ds-in-stable-cluster/http/after-takeover" % PROMPT_S
+                        ctx.tainted[k] = sig
+                        res["violations"].append({"signature": sig, "witness": {
+                            "key": list(k), "victim": victim.id, "killed_s_before_deregistration": round(r["t_call"] - t_k, 2), "deregistered_via_node": r["node"],
+                            "new_owner_among_survivors": sorted(n.id for n in surv)[ctx.svc_hash[k[:3]] % len(surv)], "answer": r.get("detail"),
+                            "still_served_by_nodes": {"%.1f s after the acknowledgement" % (PROMPT_S): still[0], "%.1f s after it" % (PROMPT_S + 1.0): still[1]},
+                            "observed(healthy,enabled,weight)": {str(nid): looks[1][nid].get(k) for nid in looks[1]},
+                            "steps_on_key(op, via, result, s after kill)": [[x["op"], x["node"], x["result"], round(x["t_call"] - t_k, 2)] for x in ctx.history
+                                                                             if x.get("client") == "takeover" and x["key"] == k and (x["op"] != "http_beat" or x["result"] == "ok")]}})
+                res["mechanisms"].add("take-over-deregistration-judged-for-prompt-propagation")
             segment(ctx, max(0.0, t_k + 19.5 - time.time()))
+            with ctx.lock:
+                res["takeover_steps"] = [[r["op"], "/".join(str(x) for x in r["key"][2:]), "via node %d" % r["node"], r["result"], round(r["t_call"] - t_k, 2)]
+                                         for r in ctx.history if r.get("client") == "takeover" and (r["op"] != "http_beat" or r["result"] == "ok")]
+                res["takeover_new_owner"] = {"/".join(str(x) for x in k[2:]): sorted(n.id for n in surv)[ctx.svc_hash[k[:3]] % len(surv)] for k in sorted(ctx.reserved)}
             ctx.count("deregistrations_after_takeover", done)
             if done:
                 res["mechanisms"].add("deregistered-after-takeover-before-any-update-by-the-new-owner")
